@@ -45,6 +45,7 @@ import M4riProofs.GenTieClose4
 import M4riProofs.GenTieTop
 import M4riProofs.GenTieTriFinal
 import M4riProofs.GenTieTop2Final
+import M4riProofs.GenTieClose6
 namespace M4ri.Props.C03
 open M4ri M4ri.BMat
 
@@ -220,3 +221,10 @@ end M4ri.Props.C03
 #check @M4ri.GenTieTop2Final.cPluqT_agree
 #check @M4ri.GenTieTop2.genTri_window
 #check @M4ri.GenTieTop2.tri_bound
+
+/-! ### THE WHOLE `_mzd_ple` OVER THE GENERATED PRODUCT (GenTieClose6.lean): `cPleFullG` = the generated `_mzd_ple` bound to itself with BOTH products (its own
+    Schur-complement update and the one inside the closed generated `_mzd_trsm_lower_left`) bound to the generated public `mzd_addmul` over the closed
+    Strassen recursion: still a valid PLE factorisation for every depth -/
+#check @M4ri.GenTieClose6.cPleFullG_agree
+#check @M4ri.GenTieClose6.cPleFullG_correct
+#check @M4ri.GenTieClose6.cPleFullG_spec
